@@ -153,6 +153,7 @@ func readPhase(run *evid.Run, idx int) {
 	useq := model.NewEnv(ociunify.New(m0, m1, &ociunify.Options{ReadPolicy: ociunify.ReadSequential}))
 	ucon := model.NewEnv(ociunify.New(m0, m1, &ociunify.Options{ReadPolicy: ociunify.ReadConcurrent}))
 	d0, d1 := model.NewEnv(m0), model.NewEnv(m1)
+	useq.Reiterate, ucon.Reiterate = true, true // unified listing sequences are ranged over twice
 	ops := u.SnapshotOps(model.New(false))
 	for _, r := range u.Repos {
 		for _, b := range u.Blobs {
